@@ -54,6 +54,7 @@ fn check_value_shift(st: &mut St<X>, c: &[u8]) {
     let w: Vec<u32> = c.iter().map(|&i| model::word(i)).collect();
     st.flight("hand_rank_value before/after shift_suit", &w);
     let v0 = crate_value(&w);
+    let vv0 = crate::props::crate_validated_value(&w); // validated value as dealt: the baseline for the validated entry point
     let mut cur = w.clone();
     st.rep.evaluations += 1;
     st.x.value_checks[c.len()] += 1;
@@ -75,7 +76,17 @@ fn check_value_shift(st: &mut St<X>, c: &[u8]) {
             return;
         }
         let v = crate_value(&cur);
-        st.rep.evaluations += 2;
+        let vv = crate::props::crate_validated_value(&cur);
+        st.rep.evaluations += 3;
+        if vv != vv0 {
+            st.rep.violation(
+                "the value of a hand is unchanged by shifting",
+                &format!("{}::shift_suit + hand_rank_value_validated", ["", "", "", "", "", "Five", "Six", "Seven"][c.len()]),
+                Input::Idx(c.to_vec()),
+                format!("{}", vv0),
+                format!("{} after {} shift(s)", vv, k),
+            );
+        }
         if v != v0 {
             st.rep.violation(
                 "the value of a hand is unchanged by shifting",
